@@ -792,7 +792,7 @@ async def run_async(ctx: Ctx, use_model: bool, scale: dict):
             # a raw (undecorated) function registered under an authenticated id: the reviewed one (spec raw_modelled)
             # authenticates inside and counts as entered when it reaches add_verified_peer; any OTHER raw function is the
             # handler itself — its body runs for whatever arrives, so entering it is the handler invocation
-            raw_reviewed = h is not None and data[22] in spec.get("raw_modelled", {}).get(tgt, [])
+            raw_reviewed = len(data) > 22 and data[22] in spec.get("raw_modelled", {}).get(tgt, [])
             any_entry = bool(entered) or (raw_entered and (bool(avp) or not raw_reviewed))
             if raw_entered and not raw_reviewed and impl == "not-called":
                 impl = "called-raw"
@@ -911,7 +911,7 @@ async def run_async(ctx: Ctx, use_model: bool, scale: dict):
 SCALES = {
     "quick": {"capture_rounds": 1, "per_pair": 1, "flips": 2, "every_byte_upto": 0, "every_byte_stride": 1,
               "unsigned_samples": 40, "pack_cases": 20, "identity_stride": 1},
-    "thorough": {"capture_rounds": 4, "per_pair": 2, "flips": 8, "every_byte_upto": 1500, "every_byte_stride": 2,
+    "thorough": {"capture_rounds": 4, "per_pair": 2, "flips": 8, "every_byte_upto": 1500, "every_byte_stride": 3,
                  "unsigned_samples": 300, "pack_cases": 300, "identity_stride": 1},
     "search": {"capture_rounds": 2, "per_pair": 2, "flips": 4, "every_byte_upto": 0, "every_byte_stride": 1,
                "unsigned_samples": 100, "pack_cases": 0, "identity_stride": 1},
@@ -957,7 +957,7 @@ async def replay(ctx: Ctx, rec: dict):
     entered = [e for e in events if e[0][0] in ("handler",)]
     avp = [e for e in events if e[0][0] == "add_verified_peer"]
     raw_e = any(e[0][0] == "raw-entry" for e in events)
-    raw_reviewed = h is not None and data[22] in spec.get("raw_modelled", {}).get(r["overlay"], [])
+    raw_reviewed = len(data) > 22 and data[22] in spec.get("raw_modelled", {}).get(r["overlay"], [])
     any_entry = bool(entered) or (raw_e and (bool(avp) or not raw_reviewed))
     bad = any_entry and ((h is not None and (r["overlay"], data[22]) in required and not sp["authentic"])
                          or data[:22] != tbn[r["overlay"]]["prefix"])
